@@ -8,10 +8,12 @@ ID="$1"; TIER="${2:-${VERIF_TIER:-quick}}"; shift; shift 2>/dev/null || true
 mkdir -p /verif/bin /verif/evidence
 BIN=/verif/bin/check.$$
 cp /repo/go.sum /verif/mc/go.sum 2>/dev/null
-if ! go build -tags verif -o "$BIN" ./cmd/check 2>/verif/bin/build.$$.log; then
-  echo "HARNESS ERROR: build failed" >&2; cat /verif/bin/build.$$.log >&2; rm -f /verif/bin/build.$$.log; exit 2
+OV=/verif/bin/ov.$$
+/verif/mkoverlay.sh "$OV" || { echo "HARNESS ERROR: overlay generation failed" >&2; exit 2; }
+if ! go build -tags verif -overlay "$OV/overlay.json" -o "$BIN" ./cmd/check 2>/verif/bin/build.$$.log; then
+  echo "HARNESS ERROR: build failed" >&2; cat /verif/bin/build.$$.log >&2; rm -rf /verif/bin/build.$$.log "$OV"; exit 2
 fi
-rm -f /verif/bin/build.$$.log
+rm -rf /verif/bin/build.$$.log "$OV"
 "$BIN" --tier "$TIER" "$@" "$ID"
 rc=$?
 rm -f "$BIN"
